@@ -1,6 +1,6 @@
 """C13 — stationary-deposit limit is the true fixed-bed / sliding-bed crossing."""
 import envelope as E
-from common import compare_gen, is_real_finite
+from common import compare_gen, is_real_finite, time_limit, CallTimeout
 
 ID = 'C13'
 LEAN_MODULES = ['Dhlldv.Props.C13']
@@ -44,8 +44,9 @@ def check_point(ctx, St, a, classes, hist=None):
         inp['history'] = hist
     ctx.count('evaluations')
     try:
-        v = St.vls_FBSB(*a)
-        v2 = St.vls_lsdv(*a)
+        with time_limit(20):
+            v = St.vls_FBSB(*a)
+            v2 = St.vls_lsdv(*a)
         if not (is_real_finite(v) and v > 0):
             ctx.violation(f'limit of stationary deposit {v!r} not finite and positive', inp, key='positive')
             return
